@@ -87,7 +87,36 @@ def new_pairtable(ip, cls, types, name, symmetric=True, elem=None):
     o = Obj(cls, {'types': types, 'name': Const(name), 'symmetric': Const(symmetric)}, None)
     o.attrs['_native_store'] = []
     o.attrs['_native_elem'] = elem
+    # the raw dict-of-dicts: code that reaches into it bypasses the copying / mirroring setter
+    o.attrs['values'] = Obj('pt_values', {'table': o})
     return o
+
+
+def ptv_getitem(ip, o, args, kwargs, node):
+    if not isinstance(args[0], Label):
+        raise Unsupported('raw table row key is not a type label', node)
+    return Obj('pt_row', {'table': o.attrs['table'], 'row': args[0]})
+
+
+def ptrow_getitem(ip, o, args, kwargs, node):
+    if not isinstance(args[0], Label):
+        raise Unsupported('raw table cell key is not a type label', node)
+    return pt_lookup(ip, o.attrs['table'], (o.attrs['row'].name, args[0].name), node)
+
+
+def ptrow_setitem(ip, o, args, kwargs, node):
+    """table.values[t1][t2] = v : the object itself is stored in exactly that cell (no deep copy, no mirrored cell)"""
+    if not isinstance(args[0], Label):
+        raise Unsupported('raw table cell key is not a type label', node)
+    t = o.attrs['table']
+    rec = {'labels': (o.attrs['row'].name, args[0].name), 'value': args[1], 'ctx_chain': list(ip.loopctx), 'loc': ip.loc(node),
+           'raw': True}
+    t.attrs['_native_store'].append(rec)
+    if t.origin is not None:
+        ip.event('write', t.origin, node, via='raw store into PairTable.values')
+    if ip.loopctx:
+        ip.loopctx[-1]['stores'].append({'kind': 'pt', 'obj': t, 'labels': rec['labels'], 'rec': rec})
+    return NONE
 
 
 def pt_new(ip, cls, args, kwargs, node):
@@ -319,6 +348,16 @@ def typemap_getitem(ip, o, args, kwargs, node):
     raise Unsupported('typeMap lookup of %r' % (k,), node)
 
 
+def typemap_get(ip, o, args, kwargs, node):
+    """dict.get on the type -> index map: the index of a known type, else the default (None)"""
+    try:
+        return typemap_getitem(ip, o, args[:1], {}, node)
+    except Raised as e:
+        if e.exc != 'KeyError':
+            raise
+        return args[1] if len(args) > 1 else NONE
+
+
 def install_containers(ip, domain_transforms=True, tables=True, matrixarray=True):
     if matrixarray:
         ip.natives[('MatrixArray', '__getitem__')] = ma_getitem
@@ -332,6 +371,9 @@ def install_containers(ip, domain_transforms=True, tables=True, matrixarray=True
         ip.natives[('PairTable', 'apply')] = pt_apply
         ip.natives[('PairTable', 'exportToMatrixArray')] = pt_export
         ip.natives[('PairTable', 'check')] = pt_check
+        ip.natives[('pt_values', '__getitem__')] = ptv_getitem
+        ip.natives[('pt_row', '__getitem__')] = ptrow_getitem
+        ip.natives[('pt_row', '__setitem__')] = ptrow_setitem
         ip.natives[('Table', 'listify')] = tbl_listify
         ip.natives[('ValueTable', '__new__')] = vt_new
         ip.natives[('ValueTable', '__getitem__')] = vt_getitem
@@ -341,6 +383,7 @@ def install_containers(ip, domain_transforms=True, tables=True, matrixarray=True
         ip.natives[('Domain', 'MatrixArray_to_fourier')] = _transform('Fourier', 'toF')
         ip.natives[('Domain', 'MatrixArray_to_real')] = _transform('Real', 'toR')
     ip.natives[('typemap', '__getitem__')] = typemap_getitem
+    ip.natives[('typemap', 'get')] = typemap_get
     ip.natives[('shape', '__getitem__')] = L.shape_getitem
     ip.natives[('poly1d', '__call__')] = L.poly1d_call
 
